@@ -36,7 +36,7 @@ LEVEL_NOTE = "Trusted: the model of the registration key (task; task + all seria
 MINIMIZE = None
 RULE = (
     "one run = mode in DISABLED/TASK/ARGUMENTS/KEYS x key arguments in {(a), (a,b)} x raise option x 15-60 operations (70% submissions over "
-    "a in 0..1, b in 0..1, c in 0..2 or a large string; 30% claim/complete); non-trivial = at least one submission was collapsed onto an "
+    "a in 0..1, b in 0..1, c in 0..2 or a large string; 30% moves of an invocation along legal lifecycle edges, incl. KILLED / RETRY / REROUTED / FAILED); non-trivial = at least one submission was collapsed onto an "
     "existing invocation and at least one created a new one after a claim freed the key; distinct = hash of the op sequence."
 )
 ASSUMPTIONS = [
